@@ -75,7 +75,11 @@ class Journaler:
                 (target_comp_id, sender_comp_id),
             )
             session_id = self.cursor.lastrowid
-            self.conn.commit()
+            try:
+                self.conn.commit()
+            except Exception:
+                self.conn.rollback()
+                raise
             session = FIXSession(session_id, target_comp_id, sender_comp_id)
             session.next_num_out = 1
             session.next_num_in = 1
@@ -197,6 +201,10 @@ class Journaler:
             self.conn.commit()
         except sqlite3.IntegrityError as e:
             raise DuplicateSeqNoError("%s is a duplicate, error %s" % (seq_no, repr(e)))
+        except Exception:
+            # all or nothing: never leave the row (or row + counter) pending for the next commit
+            self.conn.rollback()
+            raise
 
     def recover_msg(
         self,
